@@ -135,10 +135,13 @@ static int start_field(npd_scan_state_t *nssp)
  * end_field: end the current field
  *   @nssp: scanner state
  */
-static void end_field(npd_scan_state_t *nssp)
+static int end_field(npd_scan_state_t *nssp)
 {
-    add_char(nssp, '\000');
+    if (add_char(nssp, '\000') == -1) {
+	return -1;
+    }
     ++nssp->nss_field_count;
+    return 0;
 }
 
 /*
@@ -244,7 +247,9 @@ static int scan_line(npd_scan_state_t *nssp)
 	    }
 	    GET_CHAR(nssp);
 	}
-	end_field(nssp);
+	if (end_field(nssp) == -1) {
+	    return -1;
+	}
     }
 
     /*
